@@ -6,8 +6,18 @@ Mirror of the code *after* the four `fix:` commits recorded in `known_findings.d
 displaced package by force; `replace_op.revert` restores unconditionally; `pkg_choices` keyed by identity).
 
 Objects (packages, blockers, choice points, forced restrictions) are natural-number identities; the
-attributes the code reads from them (`pkg.key`, `pkg.slot`, `blocker.key`, `blocker.match(pkg)`) are
-the fields of `Univ`.  Equality of objects is identity (the harness builds objects whose `==` is `is`).
+attributes the code reads from them (`pkg.key`, `pkg.slot`, `blocker.match(pkg)`) and the key a blocker is
+registered under are the fields of `Univ`.  Equality of objects is identity (the harness builds objects
+whose `==` is `is`).
+
+The key of a blocker.  Every blocker operation object carries its own `key` (`blocker_base_op.__init__`:
+the `key` argument of `add_blocker`, defaulting to `blocker.key`) and *all* limiter bookkeeping — `add_limiter`,
+`remove_limiter`, `find_atom_matches`, in `apply` and in `revert` alike — is done under that key.  `blkKey b`
+is this registration key (a function of the blocker: the resolver passes the key of the atom the blocker was
+derived from).  It is in general NOT the blocker's own `.key` attribute: `insert_blockers` registers the
+mangled blocker of a virtual, an `AndRestriction` that has no `.key` at all, under the key of the original
+atom.  The model never mentions the own `.key`; the harness hands the code blockers whose `.key` differs
+from the registration key (or is missing), so code that falls back to `blocker.key` anywhere is exposed.
 
 Python containers:
 * `slot_dict : key → [pkg]` and `limiters : key → [atom]` are flat insertion-ordered lists; the per-key
@@ -27,6 +37,7 @@ namespace Pkgcore.C17
 structure Univ where
   pkgKey : Nat → Nat
   pkgSlot : Nat → Nat
+  /-- the key the blocker is registered under (`op.key`), see the module comment -/
   blkKey : Nat → Nat
   /-- `blocker.match(pkg)` (only ever evaluated when the keys agree) -/
   blkMatch : Nat → Nat → Bool
